@@ -77,6 +77,7 @@ for rg in ('reg', 'base'):
 for rg in ('reg', 'base'):
     MUT += [('subscribe', rg, ('R0',), 'NONE', 'fh'), ('unsubscribe', rg, ('R0',), 'NONE', 'fh')]
 MUT += [('register', 'reg', ('R0', 'Y'), 'P', '', 'fg'), ('ibases', 'Y1', ()), ('ibases', 'Y1', ('Y',))]
+MUT += [('rebuild', 'base'), ('rebuild', 'reg')]      # replaces every internal structure, keeps the contents
 MUT += [('regbases', 'reg', ()), ('regbases', 'reg', ('base',)), ('regbases', 'reg', ('top',)),
         ('regbases', 'base', ('top',)), ('regbases', 'base', ())]
 MUT += [('ibases', 'R1', ('R0',)), ('ibases', 'R1', ()), ('ibases', 'R1', ('X',)),
@@ -117,6 +118,8 @@ def do_mut(W, op):
             W[op[1]].subscribe([W[x] for x in op[2]], W[op[3]], W[op[4]])
         elif t == 'unsubscribe':
             W[op[1]].unsubscribe([W[x] for x in op[2]], W[op[3]], W[op[4]] if op[4] else None)
+        elif t == 'rebuild':
+            W[op[1]].rebuild()
         elif t == 'regbases':
             new = tuple(W[x] for x in op[2])
             me = W[op[1]]
